@@ -80,6 +80,17 @@ def runsAux : List Nat → List Nat → List (List Nat)
 
 def runs (gids : List Nat) : List (List Nat) := runsAux [] gids
 
+/-- the inner `while` of `glue_together._copy_cbdt` (:170): extend the run while the next gid is the previous one + 1 -/
+def takeRun : Nat → List Nat → List Nat × List Nat
+  | _, [] => ([], [])
+  | p, g :: gs => if g = p + 1 then ((g :: (takeRun g gs).1), (takeRun g gs).2) else ([], g :: gs)
+
+/-- the outer `while new_order:` of `_copy_cbdt`: the second implementation of the run splitting (fuel = list length) -/
+def copyRuns : Nat → List Nat → List (List Nat)
+  | 0, _ => []
+  | _, [] => []
+  | fuel + 1, g :: gs => (g :: (takeRun g gs).1) :: copyRuns fuel (takeRun g gs).2
+
 /-- `_cbdt_bitmapdata_offsets(initial, 17, glyphs)`: (start, end) per glyph; record = 9 + len(image) -/
 def offsets : Nat → List Nat → List (Nat × Nat)
   | _, [] => []
